@@ -4,7 +4,7 @@
 
 <mutation-dir> holds patch.diff, demo.py (exit 0 = property holds on its input, 1 = violated; reads the
 source path from $FFSRC) and meta.json.  The patch is applied to a scratch COPY of /repo/src (never to
-/repo itself); the demo is run on the clean copy (expect 0) and on the patched copy (expect 1); then
+/repo itself), the full repository test suite is run on the patched copy (expect pass); the demo is run on the clean copy (expect 0) and on the patched copy (expect 1); then
 the named checks are run with VERIF_REPO pointing at the patched copy (expect exit 1 + a VIOLATION
 line) and the result is printed as one JSON line.  The scratch copy is removed afterwards and the
 generated Lean files are restored from the clean tree.
@@ -30,7 +30,7 @@ def main():
     scratch = tempfile.mkdtemp(prefix='seedrun_', dir='/tmp')
     out = {'mutation': mdir, 'checks': {}}
     try:
-        shutil.copytree('/repo/src', os.path.join(scratch, 'src'))
+        sh(['rsync', '-a', '--exclude', '.git', '--exclude', '__pycache__', '/repo/', scratch + '/'])
         env = dict(os.environ, FFSRC=os.path.join(scratch, 'src'))
         rc0, o0 = sh(['python3-vt', os.path.join(mdir, 'demo.py')], env=env)
         out['demo_clean_rc'] = rc0
@@ -41,6 +41,11 @@ def main():
         rc1, o1 = sh(['python3-vt', os.path.join(mdir, 'demo.py')], env=env)
         out['demo_mutant_rc'] = rc1
         out['demo_mutant_tail'] = o1[-300:]
+        # the existing test suite must still pass on the changed tree
+        envt = dict(os.environ, PYTHONPATH='/tmp/pydeps:' + os.path.join(scratch, 'src'))
+        rct, ot = sh(['/venv/bin/python', '-m', 'pytest', '-q', '-p', 'no:cacheprovider', '-x'], env=envt, cwd=scratch)
+        out['suite_rc'] = rct
+        out['suite_tail'] = ot.strip().split('\n')[-1][-120:]
         for pid in pids:
             env2 = dict(os.environ, VERIF_REPO=scratch)
             rc, o = sh([os.path.join(VERIF, 'check'), pid, '--tier', 'quick'], env=env2, cwd=VERIF)
